@@ -276,7 +276,7 @@ for _pid in ('C01', 'C06', 'C07', 'C09', 'C13'):
     if 'OtterVerif.Props.C07Evict' not in PROPS[_pid]['modules']:
         PROPS[_pid]['modules'].append('OtterVerif.Props.C07Evict')
 # observers inside the refinement: GetEntry / GetEntryQuietly snapshots, iteration filter
-for _pid in ('C01', 'C03'):
+for _pid in ('C01', 'C03', 'C11'):
     if 'OtterVerif.Props.C03Read' not in PROPS[_pid]['modules']:
         PROPS[_pid]['modules'].append('OtterVerif.Props.C03Read')
 # conservation (written = present + reported) over every history of Impl.Table, removals included
@@ -287,6 +287,10 @@ for _pid in ('C06', 'C01'):
 for _pid in ('C04', 'C05', 'C07'):
     if 'OtterVerif.Props.C04Table' not in PROPS[_pid]['modules']:
         PROPS[_pid]['modules'].append('OtterVerif.Props.C04Table')
+# InvalidateAll inside the refinement; one history theorem over every modelled operation (simulation + conservation)
+for _pid in ('C06', 'C01'):
+    if 'OtterVerif.Props.C06All' not in PROPS[_pid]['modules']:
+        PROPS[_pid]['modules'].append('OtterVerif.Props.C06All')
 for _pid, _mods in PINS.items():
     for _m in _mods:
         _name = 'OtterVerif.Pin.' + _m
